@@ -6,6 +6,8 @@ import RR.Model.Conv
 import RR.Model.FileSrc
 import RR.Model.AuBlock
 import RR.Model.Gated
+import RR.Model.SinkSrc
+import RR.Model.Wrap
 import RR.Model.Util
 
 /-!
@@ -87,7 +89,14 @@ def Sim.work {B : Block} (s : Sim B) : Sim B :=
     let v := s.net.view
     let (net', o) := s.net.work
     let fit := if o.fits v then "" else ":MISFIT"
-    let line := s!"W:{showVerdict o.verdict}:{commaNats o.consumed}:{commaNats (o.produced.map (·.samples.length))}{fit}"
+    -- both runners ask `eof()` after a wait verdict and retire the block on "true"
+    let asked := match o.verdict with
+      | .waitIn _ _ => true
+      | .waitOut _ _ => true
+      | .waitFunc => true
+      | _ => false
+    let e := if asked && B.eof net'.st net'.view then ":e" else ""
+    let line := s!"W:{showVerdict o.verdict}:{commaNats o.consumed}:{commaNats (o.produced.map (·.samples.length))}{e}{fit}"
     { s with net := net', trace := s.trace ++ [line], dead := o.verdict == .panic || o.verdict == .err }
 
 def parseAct (t : String) : Option (Char × Nat × Nat) :=
@@ -213,7 +222,13 @@ def registry (name : String) (p : List Nat) : Option Block :=
         | none =>
           match gatedRegistry2 name p with
           | some b => some b
-          | none => sourceRegistry name p
+          | none =>
+            match sinkSrcRegistry name p with
+            | some b => some b
+            | none =>
+              match Dsp.wrapRegistry name p with
+              | some b => some b
+              | none => sourceRegistry name p
 
 /-- `repeat <n or inf> ; a ; d ; c …`: the `Repeat` API -/
 def handleRepeat (args : String) : String :=
